@@ -695,6 +695,8 @@ class Ledger(Monitor):
     def on_call(self, run, ev):
         if not self.enabled:
             return
+        if ev["op"] == "req" and not (ev["args"][0] == "running" and not run.offers):
+            self.ctl_seen = True
         if ev["op"] == "rerun" and ev["exc"] is None:
             if not self.stopped:
                 # joins left partially satisfied when the workflow stopped: a rerun that does not bring their
@@ -726,6 +728,18 @@ class Ledger(Monitor):
         status = run.status()
         if run.inflight:
             return
+        if status == "failed" and not getattr(self, "ctl_seen", False) and not run.tags and not run.notes.get("max_steps") \
+                and not [x for x in run.c.errors if not str(x.get("message", "")).startswith("Execution failed")]:
+            # the tasks listed beside a fail command are the one thing a failed workflow still starts (C04's documented
+            # exception): their satisfied transitions yield an execution like any other (no request, expression error
+            # or recorded defect intervened in this run)
+            for ob in self.oblig:
+                if ob["rof"] and not ob["used"] and ob["target"] in self.m.tasks and self.m.tasks[ob["target"]].join is None:
+                    run.viol("C01", "cleanup_beside_fail_never_offered", "the workflow failed through a fail command after %s; "
+                             "the satisfied transition %s -> %s beside it was never executed"
+                             % (ob["src"].task, ob["src"].task, ob["target"]), subject=ob["target"])
+            self.stats["rof_obligations_checked"] = self.stats.get("rof_obligations_checked", 0) + \
+                len([1 for ob in self.oblig if ob["rof"]])
         if status == "succeeded":
             for ob in self.oblig:
                 if not ob["used"]:
